@@ -45,8 +45,10 @@ var payloads = []pl{
 	{"errattr", okReply(`<rpc-error xmlns:x="urn:x"><error-severity>error</error-severity></rpc-error>`), true},
 	{"errnc", `<nc:rpc-reply xmlns:nc="` + dev.NSBase + `" message-id="101"><nc:rpc-error><nc:error-severity>error</nc:error-severity></nc:rpc-error></nc:rpc-reply>`, true},
 	{"err2", okReply("<rpc-error><error-severity>warning</error-severity></rpc-error><rpc-error><error-severity>error</error-severity></rpc-error>"), true},
-	{"mid", okReply("<data>" + strings.Repeat("0123456789", 9) + "</data>"), false},   // ~170 bytes: 3-digit sizes
-	{"big", okReply("<data>" + strings.Repeat("abcdefghij", 105) + "</data>"), false}, // >1100 bytes: 4-digit sizes
+	{"innerdecl", okReply("<d><![CDATA[" + xmlHeader + "<x/>]]></d>"), false},              // an XML declaration inside the payload (a document carried as text) is payload
+	{"decl+innerdecl", xmlHeader + okReply("<d><![CDATA["+xmlHeader+"<x/>]]></d>"), false}, // only the leading one is trimmed
+	{"mid", okReply("<data>" + strings.Repeat("0123456789", 9) + "</data>"), false},        // ~170 bytes: 3-digit sizes
+	{"big", okReply("<data>" + strings.Repeat("abcdefghij", 105) + "</data>"), false},      // >1100 bytes: 4-digit sizes
 }
 
 // payload with a line that is exactly "##": legal data, handled separately (driver leg)
@@ -446,7 +448,7 @@ func scenarios(tier string) []sched.Scenario {
 			checkRaw(w, append([]byte("\n#2\nab"), a), "after-chunk")
 		}
 	}})
-	drv := []pl{payloads[5], payloads[6], payloads[7], payloads[8], payloads[10], payloads[12], {"nlhashw", okReply("<a>x\n#2\ny\n##z</a>"), false}, hashLine,
+	drv := []pl{payloads[5], payloads[6], payloads[7], payloads[8], payloads[10], payloads[12], payloads[14], {"nlhashw", okReply("<a>x\n#2\ny\n##z</a>"), false}, hashLine,
 		{"hashend", okReply("<d>window ##\nnext ##\n</d>"), false}} // '##' ends a line without starting one: only a search anchored at a line start of the whole buffer tells it from the terminator
 	for _, p := range drv {
 		for _, v := range []string{"1.0", "1.1"} {
@@ -476,7 +478,7 @@ func TestCheck(t *testing.T) {
 	sched.Main(t, sched.Check{
 		ID:    "C02",
 		Level: "exploration",
-		Rule: "leg 1: 16 payloads x every partition into chunks (all 2^(n-1) for payloads <=12 bytes, every 2- and 3-chunk partition on a grid otherwise) x {with, without trailing LF} + 1.0 framing, through response.NetconfResponse.Record; " +
+		Rule: "leg 1: 18 payloads x every partition into chunks (all 2^(n-1) for payloads <=12 bytes, every 2- and 3-chunk partition on a grid otherwise) x {with, without trailing LF} + 1.0 framing, through response.NetconfResponse.Record; " +
 			"leg 2: every byte string over {#,LF,0,1,2,9,-,a,<,space} up to the length bound, bare and after a legal chunk, classified LEGAL / MALFORMED (cases the property lists) / don't-care by an independent RFC 6242 reference; " +
 			"leg 3: payload subset x chunk partitions x read presets (+single cuts) x version x echo through netconf.Driver.Get over the server model; distinct_nontrivial = distinct legal/malformed cases + distinct driver executions",
 		Assumptions: []string{
